@@ -1436,3 +1436,312 @@ func capturedSources(v ssa.Value) []ssa.Value {
 	})
 	return out
 }
+
+// ---------------------------------------------------------------------------
+// R08.17: once the collector of the concurrent decoder has seen a failed block
+// (a per-block channel closed without a buffer), it forwards nothing more: the
+// blocks behind the failed one are already in flight and would otherwise reach
+// the consumer (and the running content hash) out of sequence.
+//
+// Decided on a finite abstraction of the collector: one bit "a failure has been
+// seen" and the values of its boolean loop variables (constants, copies of each
+// other, or unknown), explored over the control-flow graph.
+
+func findCollector(p *Program) *ssa.Function {
+	ir := p.Func("internal/lz4stream", "Blocks.initR")
+	if ir == nil {
+		return nil
+	}
+	var readerLoop, collector *ssa.Function
+	for _, fn := range goroutinesOf(ir) {
+		if fn.Parent() != nil && fn.Parent().Parent() != nil {
+			continue
+		}
+		for _, ci := range callsInDeep(fn) {
+			if calleeIs(ci, pkgStream, "FrameDataBlock.Read") {
+				readerLoop = fn
+			}
+		}
+		allInstrsDeep(fn, func(in ssa.Instruction) {
+			var cht types.Type
+			if u, ok := in.(*ssa.UnOp); ok && u.Op == token.ARROW {
+				cht = u.X.Type()
+			}
+			if nx, ok := in.(*ssa.Next); ok && !nx.IsString {
+				if rg, isR := nx.Iter.(*ssa.Range); isR {
+					cht = rg.X.Type()
+				}
+			}
+			if cht == nil {
+				return
+			}
+			if ch, isCh := cht.Underlying().(*types.Chan); isCh {
+				if _, inner := ch.Elem().Underlying().(*types.Chan); inner && fn != readerLoop {
+					collector = fn
+				}
+			}
+		})
+	}
+	return collector
+}
+
+// exploreBoolStates walks fn's control-flow graph over the states (block, event
+// bit, valuation of the boolean phis). raise(from, k) tells whether taking
+// successor k of block from raises the event bit. visit is called for every
+// instruction with the event bit of the state it is reached in.
+func exploreBoolStates(fn *ssa.Function, raise func(from *ssa.BasicBlock, k int) bool, visit func(in ssa.Instruction, ev bool)) {
+	if len(fn.Blocks) == 0 {
+		return
+	}
+	var bphis []*ssa.Phi
+	allInstrs(fn, func(in ssa.Instruction) {
+		if ph, ok := in.(*ssa.Phi); ok {
+			if bt, isB := ph.Type().Underlying().(*types.Basic); isB && bt.Kind() == types.Bool {
+				bphis = append(bphis, ph)
+			}
+		}
+	})
+	idx := map[*ssa.Phi]int{}
+	for i, ph := range bphis {
+		idx[ph] = i
+	}
+	type state struct {
+		b   *ssa.BasicBlock
+		ev  bool
+		val string // per boolean phi: 't', 'f', '?'
+	}
+	evalBool := func(v ssa.Value, val []byte) byte {
+		neg := false
+		for i := 0; i < 4; i++ {
+			if u, ok := v.(*ssa.UnOp); ok && u.Op == token.NOT {
+				v, neg = u.X, !neg
+				continue
+			}
+			break
+		}
+		r := byte('?')
+		switch x := v.(type) {
+		case *ssa.Const:
+			if x.Value != nil && x.Value.Kind() == constant.Bool {
+				if constant.BoolVal(x.Value) {
+					r = 't'
+				} else {
+					r = 'f'
+				}
+			}
+		case *ssa.Phi:
+			if i, ok := idx[x]; ok {
+				r = val[i]
+			}
+		}
+		if neg {
+			switch r {
+			case 't':
+				r = 'f'
+			case 'f':
+				r = 't'
+			}
+		}
+		return r
+	}
+	seen := map[state]bool{}
+	init := make([]byte, len(bphis))
+	for i := range init {
+		init[i] = '?'
+	}
+	type item struct {
+		st   state
+		from *ssa.BasicBlock
+	}
+	work := []item{{state{fn.Blocks[0], false, string(init)}, nil}}
+	for steps := 0; len(work) > 0 && steps < 100000; steps++ {
+		it := work[len(work)-1]
+		work = work[:len(work)-1]
+		b := it.st.b
+		val := []byte(it.st.val)
+		// phis of b take the value of the incoming edge (all at once)
+		if it.from != nil {
+			old := append([]byte{}, val...)
+			for pi, pr := range b.Preds {
+				if pr != it.from {
+					continue
+				}
+				for _, in := range b.Instrs {
+					ph, isPhi := in.(*ssa.Phi)
+					if !isPhi {
+						break
+					}
+					if i, ok := idx[ph]; ok {
+						val[i] = evalBool(ph.Edges[pi], old)
+					}
+				}
+				break
+			}
+		}
+		st := state{b, it.st.ev, string(val)}
+		if seen[st] {
+			continue
+		}
+		seen[st] = true
+		for _, in := range b.Instrs {
+			visit(in, st.ev)
+		}
+		ifi, isIf := b.Instrs[len(b.Instrs)-1].(*ssa.If)
+		for k, su := range b.Succs {
+			if isIf && len(b.Succs) == 2 {
+				switch evalBool(ifi.Cond, val) {
+				case 't':
+					if k == 1 {
+						continue
+					}
+				case 'f':
+					if k == 0 {
+						continue
+					}
+				}
+			}
+			ev := st.ev || raise(b, k)
+			work = append(work, item{state{su, ev, string(val)}, b})
+		}
+	}
+}
+
+func ruleCollectorStopsAfterFailure(c *Check, p *Program, rule string) {
+	col := findCollector(p)
+	if col == nil {
+		c.Fail(rule, "initR.collector#nothing-forwarded-after-failure", "", "collector goroutine resolved", "the goroutine receiving the per-block channels was not found (anchor unresolved)")
+		return
+	}
+	c.Funcs[fname(col)] = true
+	// the failure signal: the second result of a receive from a per-block channel (chan []byte)
+	isFailEdge := func(from *ssa.BasicBlock, k int) bool {
+		ifi, ok := from.Instrs[len(from.Instrs)-1].(*ssa.If)
+		if !ok || len(from.Succs) != 2 {
+			return false
+		}
+		cond, neg := ifi.Cond, false
+		if u, isU := cond.(*ssa.UnOp); isU && u.Op == token.NOT {
+			cond, neg = u.X, true
+		}
+		ex, isE := cond.(*ssa.Extract)
+		if !isE || ex.Index != 1 {
+			return false
+		}
+		rc, isR := ex.Tuple.(*ssa.UnOp)
+		if !isR || rc.Op != token.ARROW || !rc.CommaOk {
+			return false
+		}
+		ch, isCh := rc.X.Type().Underlying().(*types.Chan)
+		if !isCh {
+			return false
+		}
+		if _, isSl := ch.Elem().Underlying().(*types.Slice); !isSl {
+			return false
+		}
+		// the edge on which ok is false
+		return (k == 1) != neg
+	}
+	nFail := 0
+	for _, b := range col.Blocks {
+		for k := range b.Succs {
+			if isFailEdge(b, k) {
+				nFail++
+			}
+		}
+	}
+	if nFail == 0 {
+		c.Fail(rule, "initR.collector#nothing-forwarded-after-failure", p.Pos(col.Pos()), "the collector notices a failed block", "no test of the second result of a receive from a per-block channel (anchor unresolved)")
+		return
+	}
+	c.Sites += nFail
+	bad := ""
+	nFwd := 0
+	seenFwd := map[ssa.Instruction]bool{}
+	exploreBoolStates(col, isFailEdge, func(in ssa.Instruction, ev bool) {
+		fwd := false
+		if s, ok := in.(*ssa.Send); ok {
+			if _, isSl := s.X.Type().Underlying().(*types.Slice); isSl && !isNilConst(s.X) {
+				fwd = true
+			}
+		}
+		if ci, ok := in.(ssa.CallInstruction); ok && calleeIs(ci, pkgXXH, "XXHZero.Write") {
+			fwd = true
+		}
+		if !fwd {
+			return
+		}
+		if !seenFwd[in] {
+			seenFwd[in] = true
+			nFwd++
+		}
+		if ev && bad == "" {
+			bad = p.InstrPos(in)
+		}
+	})
+	c.Cond(bad == "" && nFwd >= 1, rule, "initR.collector#nothing-forwarded-after-failure", p.Pos(col.Pos()),
+		"after a per-block channel was found closed (that block failed), the collector neither forwards a later block to the consumer nor feeds it to the content hash: up to `num` later blocks are already being decoded and would be delivered right after the block before the failed one",
+		fmt.Sprintf("%d forwarding site(s), none reachable once a failure has been seen (boolean loop state tracked)", nFwd),
+		fmt.Sprintf("forwarding sites: %d; the one at %s is reachable after a failed block has been seen", nFwd, bad))
+}
+
+// ---------------------------------------------------------------------------
+// R07.13: the consumer of the concurrent decoder looks at the error latch only
+// when the data channel has delivered an empty buffer (closed and drained).
+// The pipeline relies on the consumer draining that channel: an error returned
+// while good blocks are still queued leaves the collector, the source-reading
+// goroutine and the workers blocked forever, each holding pooled buffers.
+
+func ruleConsumerDrains(c *Check, p *Program, rule string) {
+	n := 0
+	for _, name := range []string{"Reader.Read", "Reader.WriteTo"} {
+		fn := findFn(c, p, rule, "", name)
+		if fn == nil {
+			continue
+		}
+		for _, g := range deepFuncs(fn, 2) {
+			for _, ci := range callsIn(g) {
+				if !calleeIs(ci, pkgStream, "Blocks.ErrorR") {
+					continue
+				}
+				n++
+				c.Sites++
+				ok, how := false, ""
+				for _, a := range atomsOfBlock(ci.Block()) {
+					z := atomSaysZero(a)
+					if z == nil {
+						continue
+					}
+					// len(x) == 0 with x what the data channel delivered (directly, or as kept in Reader.data), or an
+					// integer that is that length
+					var lenOf ssa.Value
+					if lc, isL := stripConv(z).(*ssa.Call); isL {
+						if bi, isB := lc.Call.Value.(*ssa.Builtin); isB && bi.Name() == "len" {
+							lenOf = lc.Call.Args[0]
+						}
+					}
+					if lenOf == nil {
+						continue
+					}
+					fromChan := false
+					walkBack(lenOf, false, func(v ssa.Value) bool {
+						if u, isU := v.(*ssa.UnOp); isU && u.Op == token.ARROW {
+							if ch, isCh := u.X.Type().Underlying().(*types.Chan); isCh {
+								if _, isSl := ch.Elem().Underlying().(*types.Slice); isSl {
+									fromChan = true
+								}
+							}
+						}
+						return true
+					})
+					if fromChan || loadField(lenOf) == "Reader.data" {
+						ok, how = true, "guard "+a.String()
+					}
+				}
+				c.Cond(ok, rule, shortFn(g)+"#error-latch-read-only-when-drained", p.InstrPos(ci), "the consumer reads the pipeline's error latch only after the data channel has delivered an empty buffer (the channel is closed and everything queued before has been taken)", how, "Blocks.ErrorR() is consulted while decoded blocks may still be queued: returning its error leaves the collector blocked on the data channel, the source-reading goroutine on its hand-shake and the workers on their per-block channels (goroutines and pooled buffers leak on every failed stream)")
+			}
+		}
+	}
+	if n < 2 {
+		c.Fail(rule, "Reader#error-latch-reads", "", "the consumer's reads of the error latch are resolved", fmt.Sprintf("only %d call(s) of Blocks.ErrorR found in Reader.Read / Reader.WriteTo (expected one each)", n))
+	}
+}
